@@ -1,10 +1,12 @@
 #!/bin/bash
-# development helper for `vp run`: build the engine inside the snapshot and run every thorough check, logging verdicts
-cd "$(dirname "$0")/engine" && PATH=/opt/veriftools/go1.26.8/bin:$PATH GOTOOLCHAIN=local GOFLAGS=-mod=mod GOPROXY=off GOSUMDB=off go build -o /verif/bin/hv.thorough ./cmd/hv || exit 2
-cd /verif
-for p in C01 C02 C03 C04 C05 C07 C08 C09 C10 C11 C12 C13 C14 C15 C16 C17 C18 C19 C20; do
+# development helper for `vp run`: build the engine inside the snapshot this script lives in and run every thorough check
+# against that snapshot's harnesses (VERIF_DIR), logging verdicts; evidence goes to /tmp/evidence_thorough
+here="$(cd "$(dirname "$0")" && pwd)"
+cd "$here/engine" && PATH=/opt/veriftools/go1.26.8/bin:$PATH GOTOOLCHAIN=local GOFLAGS=-mod=mod GOPROXY=off GOSUMDB=off go build -o "$here/bin/hv.thorough" ./cmd/hv || exit 2
+cd "$here"
+for p in ${PROPS:-C01 C02 C03 C04 C05 C07 C08 C09 C10 C11 C12 C13 C14 C15 C16 C17 C18 C19 C20}; do
   start=$(date +%s)
-  VERIF_EVIDENCE_DIR=/tmp/evidence_thorough /verif/bin/hv.thorough check $p --tier thorough > /tmp/thorough_$p.log 2>&1
+  VERIF_DIR="$here" VERIF_EVIDENCE_DIR=/tmp/evidence_thorough "$here/bin/hv.thorough" check $p --tier thorough > /tmp/thorough_$p.log 2>&1
   rc=$?
   echo "$p exit=$rc wall=$(( $(date +%s) - start ))s $(grep -c VIOLATION /tmp/thorough_$p.log) violations $(grep -c INCONCLUSIVE /tmp/thorough_$p.log) inconclusive"
 done
